@@ -1,6 +1,7 @@
 package validator
 
 import (
+	"fmt"
 	"github.com/aml-org/amf-custom-validator/internal/types"
 	"github.com/piprate/json-gold/ld"
 )
@@ -15,7 +16,13 @@ func Normalize(json any) any {
 }
 
 // NormalizeOrError flattens the input, reporting documents JSON-LD rejects as an error
-func NormalizeOrError(json any) (any, error) {
+func NormalizeOrError(json any) (flattened any, err error) {
+	// json-gold panics on some malformed documents instead of returning an error
+	defer func() {
+		if r := recover(); r != nil {
+			flattened, err = nil, fmt.Errorf("cannot process JSON-LD document: %v", r)
+		}
+	}()
 	proc := ld.NewJsonLdProcessor()
 	options := ld.NewJsonLdOptions("")
 	context := make(types.ObjectMap)
